@@ -82,20 +82,20 @@ Qed.
 (* ------------------------------------------------------------------ check 1: the cast of every row *)
 Definition cast_ok (g : group) (r : row) : bool :=
   pat_eqb (r_pat r) (map Some (cs_params (r_cast r))) &&
-  forallb (fun ret => negb (in_scope ret) || ty_eqb (cs_ret (r_cast r)) ret) (g_rets g).
+  forallb (fun ret => ty_eqb (cs_ret (r_cast r)) ret) (g_rets g).
 Definition casts_ok (chain : list group) : bool :=
   forallb (fun g => forallb (cast_ok g) (g_rows g)) chain.
 
 Lemma casts_ok_sound chain : casts_ok chain = true ->
-  forall g r ret ps, In g chain -> In r (g_rows g) -> In ret (g_rets g) -> in_scope ret = true ->
+  forall g r ret ps, In g chain -> In r (g_rows g) -> In ret (g_rets g) ->
   pat_match (r_pat r) ps = true -> r_cast r = mk_csig ret ps.
 Proof.
-  intros H g r ret ps Hg Hr Hret Hs Hm.
+  intros H g r ret ps Hg Hr Hret Hm.
   unfold casts_ok in H. rewrite forallb_forall in H. specialize (H g Hg).
   rewrite forallb_forall in H. specialize (H r Hr). unfold cast_ok in H.
   apply andb_true_iff in H. destruct H as [H1 H2].
   apply pat_eqb_eq in H1. rewrite H1 in Hm. apply pat_match_some in Hm.
-  rewrite forallb_forall in H2. specialize (H2 ret Hret). rewrite Hs in H2. simpl in H2.
+  rewrite forallb_forall in H2. specialize (H2 ret Hret).
   apply ty_eqb_eq in H2. destruct (r_cast r) as [cr cp]; simpl in *. now subst.
 Qed.
 
@@ -114,10 +114,10 @@ Proof.
 Qed.
 
 Lemma dispatch_cast_sound native chain : casts_ok chain = true ->
-  forall sig args c, in_scope (cs_ret sig) = true ->
+  forall sig args c,
   o_call (dispatch native chain sig args) = Some c -> k_cast c = sig.
 Proof.
-  intros H sig args c Hs Hc. apply dispatch_call_row in Hc. destruct Hc as (g & r & Hg & Hr & ->).
+  intros H sig args c Hc. apply dispatch_call_row in Hc. destruct Hc as (g & r & Hg & Hr & ->).
   apply find_group_In in Hg. apply find_row_In in Hr. destruct Hg, Hr. simpl.
   rewrite (casts_ok_sound chain H g r (cs_ret sig) (cs_params sig)); auto. now destruct sig.
 Qed.
@@ -184,13 +184,13 @@ Proof.
 Qed.
 
 Lemma dispatch_args_sound native chain : casts_ok chain = true -> feeds_ok chain = true ->
-  forall sig args c, in_scope (cs_ret sig) = true -> length args = length (cs_params sig) ->
+  forall sig args c, length args = length (cs_params sig) ->
   o_call (dispatch native chain sig args) = Some c ->
   k_args c = spec_args (cs_params sig) args.
 Proof.
-  intros H1 H2 sig args c Hs L Hc. apply dispatch_call_row in Hc. destruct Hc as (g & r & Hg & Hr & ->).
+  intros H1 H2 sig args c L Hc. apply dispatch_call_row in Hc. destruct Hc as (g & r & Hg & Hr & ->).
   apply find_group_In in Hg. apply find_row_In in Hr. destruct Hg as [Hg Hret], Hr as [Hr Hm]. simpl.
-  pose proof (casts_ok_sound chain H1 g r _ _ Hg Hr Hret Hs Hm) as Hc.
+  pose proof (casts_ok_sound chain H1 g r _ _ Hg Hr Hret Hm) as Hc.
   unfold feeds_ok in H2. rewrite forallb_forall in H2. specialize (H2 g Hg).
   rewrite forallb_forall in H2. specialize (H2 r Hr). unfold feeds_ok_row in H2.
   rewrite Hc in H2. simpl in H2.
@@ -246,16 +246,16 @@ Lemma opt_set_type_fields o : v_value (opt_set_type o default_var) = 0 /\ v_dbl 
 Proof. destruct o; simpl; auto. Qed.
 
 Lemma dispatch_result_sound native chain : casts_ok chain = true -> stores_ok chain = true ->
-  forall sig args c, in_scope (cs_ret sig) = true ->
+  forall sig args c,
   o_call (dispatch native chain sig args) = Some c ->
   o_err (dispatch native chain sig args) = None /\
   o_res (dispatch native chain sig args) = spec_result (cs_ret sig) (native sig (k_args c)) default_var.
 Proof.
-  intros H1 H2 sig args c Hs Hc.
+  intros H1 H2 sig args c Hc.
   destruct (dispatch_call_row _ _ _ _ _ Hc) as (g & r & Hg & Hr & ->).
   unfold dispatch. rewrite Hg, Hr.
   apply find_group_In in Hg. apply find_row_In in Hr. destruct Hg as [Hg Hret], Hr as [Hr Hm].
-  pose proof (casts_ok_sound chain H1 g r _ _ Hg Hr Hret Hs Hm) as Hcast.
+  pose proof (casts_ok_sound chain H1 g r _ _ Hg Hr Hret Hm) as Hcast.
   unfold stores_ok in H2. rewrite forallb_forall in H2. specialize (H2 g Hg).
   rewrite forallb_forall in H2. specialize (H2 r Hr). unfold store_ok in H2.
   apply andb_true_iff in H2. destruct H2 as [Hst Het]. apply ty_eqb_eq in Het.
@@ -266,7 +266,7 @@ Proof.
   set (res1 := opt_set_type (g_pre g) default_var) in *.
   set (rr := native sig (map (feed_val args) (r_feeds r))).
   unfold eff_type in Het.
-  destruct (cs_ret sig) eqn:Eret; simpl in Hs; try discriminate; simpl in Hst;
+  destruct (cs_ret sig) eqn:Eret; simpl in Hst; try discriminate;
     destruct (r_store r); simpl in Hst; try discriminate;
     destruct (r_return r); simpl;
     try (destruct (g_tail g) as [tl|]; [|discriminate]); simpl;
@@ -309,15 +309,45 @@ Proof.
   intros _. destruct (g_tail g); [discriminate|]. intros _. split; reflexivity.
 Qed.
 
-Definition all_tys : list ty := [TInt; TLong; TDouble; TFloat; TVoid; TUnknown; TOther].
+Definition all_tys : list ty := [TInt; TLong; TDouble; TFloat; TVoid; TPointer; TUnknown; TOther].
 Lemma all_tys_complete t : In t all_tys.
 Proof. destruct t; simpl; tauto. Qed.
 
-(* every return type except void leaves its group through the "Unsupported" diagnostic *)
-Definition tails_ok (chain : list group) : bool :=
-  forallb (fun ret => ty_eqb ret TVoid || group_falls chain ret) all_tys.
-Lemma tails_ok_sound chain : tails_ok chain = true -> forall ret, ret <> TVoid -> group_falls chain ret = true.
+(* every return type leaves its group through the "Unsupported" diagnostic when no row matches *)
+Definition tails_ok (chain : list group) : bool := forallb (group_falls chain) all_tys.
+Lemma tails_ok_sound chain : tails_ok chain = true -> forall ret, group_falls chain ret = true.
 Proof.
-  intros H ret Hv. unfold tails_ok in H. rewrite forallb_forall in H. specialize (H ret (all_tys_complete ret)).
-  apply orb_true_iff in H. destruct H as [H|H]; [apply ty_eqb_eq in H; contradiction | exact H].
+  intros H ret. unfold tails_ok in H. rewrite forallb_forall in H. exact (H ret (all_tys_complete ret)).
+Qed.
+
+(* ------------------------------------------------------------------ what a supported signature looks like *)
+Definition plain (t : ty) : Prop := t = TInt \/ t = TLong \/ t = TDouble.
+
+Lemma feeds_for_plain : forall ps k fs, feeds_for k ps = Some fs -> Forall plain ps.
+Proof.
+  induction ps as [|t ps IH]; intros k fs H; [constructor|].
+  simpl in H. destruct (feed_for t k) eqn:Ef; [|discriminate].
+  destruct (feeds_for (S k) ps) eqn:Efs; [|discriminate].
+  constructor; [|eapply IH; eauto].
+  unfold plain. destruct t; simpl in Ef; try discriminate; auto.
+Qed.
+
+(* only int/long/double/void returns over int/long/double parameters can be in a checked table: a float
+   return, a pointer parameter, any other TypeInfo is unsupported *)
+Lemma supported_plain chain : casts_ok chain = true -> feeds_ok chain = true -> stores_ok chain = true ->
+  forall sig, supported chain sig = true -> in_scope (cs_ret sig) = true /\ Forall plain (cs_params sig).
+Proof.
+  intros H1 H2 H3 sig. unfold supported.
+  destruct (find_group chain (cs_ret sig)) as [g|] eqn:Eg; [|discriminate].
+  destruct (find_row (g_rows g) (cs_params sig)) as [r|] eqn:Er; [|discriminate]. intros _.
+  apply find_group_In in Eg. apply find_row_In in Er. destruct Eg as [Hg Hret], Er as [Hr Hm].
+  pose proof (casts_ok_sound chain H1 g r _ _ Hg Hr Hret Hm) as Hc.
+  unfold feeds_ok in H2. rewrite forallb_forall in H2. specialize (H2 g Hg).
+  rewrite forallb_forall in H2. specialize (H2 r Hr). unfold feeds_ok_row in H2. rewrite Hc in H2. simpl in H2.
+  unfold stores_ok in H3. rewrite forallb_forall in H3. specialize (H3 g Hg).
+  rewrite forallb_forall in H3. specialize (H3 r Hr). unfold store_ok in H3. rewrite Hc in H3. simpl in H3.
+  apply andb_true_iff in H3. destruct H3 as [H3 _].
+  split.
+  - destruct (cs_ret sig); simpl in H3; try discriminate; reflexivity.
+  - destruct (feeds_for 0 (cs_params sig)) eqn:Ef; [|discriminate]. eapply feeds_for_plain; eauto.
 Qed.
